@@ -246,10 +246,17 @@ def worker(args):
         if hasattr(mod, 'machines'):
             _run_machines(mod, tier, S, getattr(mod, 'MACHINE_BUDGET', mod.BUDGET)[tier], col)
         if hasattr(mod, 'enumerate_cases'):
-            for i, case in enumerate(mod.enumerate_cases(tier)):
-                if i % nshards == shard:
+            import inspect
+            if len(inspect.signature(mod.enumerate_cases).parameters) >= 3:
+                # the module shards its own enumeration (expensive generators)
+                for case in mod.enumerate_cases(tier, shard, nshards):
                     col.add(case, mod.run_case(case))
                     col.stats['enumerated'] = col.stats.get('enumerated', 0) + 1
+            else:
+                for i, case in enumerate(mod.enumerate_cases(tier)):
+                    if i % nshards == shard:
+                        col.add(case, mod.run_case(case))
+                        col.stats['enumerated'] = col.stats.get('enumerated', 0) + 1
         if hasattr(mod, 'extra') and shard == 0:
             mod.extra(tier, seed_, col)
         # collect-then-shrink: shrink up to 3 new buckets in this shard
